@@ -26,6 +26,8 @@
 //! Mode 2 (containment): 2 <container> <needle>
 //!   -> [v in c, v not in c, v is in(c), v in (c|list), c[v] is defined (maps only, else 9)]   0/1 or 100+err
 //! Mode 3 (chains): 3 <a> <b> <c> haslit [str la] [str lb] [str lc] -> answers of the CHAINS templates over variables, then over literals
+//! Mode 4 (aliasing): 4 <x> <a> <b> -> as mode 0; description tag 14 inside a and b is a clone of the one value x
+//! Mode 5 (repeatable enumeration): 5 opid <x> -> 1 err | 0 then for each of OBSERVATIONS over the one result r: 0 <value> | 1 err
 //! Canonical value = description with integer width 0 and iterable sizedness 0; strings report the safe flag.
 use std::collections::hash_map::DefaultHasher;
 use std::fmt;
@@ -55,6 +57,11 @@ fn int_value(w: i64, s: &str) -> Value {
         2 => Value::from(s.parse::<i128>().unwrap_or(0)),
         _ => Value::from(s.parse::<u128>().unwrap_or(0)),
     }
+}
+
+thread_local! {
+    // the value that description tag 14 refers to (mode 4: one object aliased inside both operands)
+    static SHARED: std::cell::RefCell<Option<Value>> = const { std::cell::RefCell::new(None) };
 }
 
 fn items(env: &Environment, c: &mut Cur) -> Vec<Value> {
@@ -123,6 +130,7 @@ fn value(env: &Environment, c: &mut Cur) -> Value {
             env.compile_expression(&src).and_then(|e| e.eval(ctx)).unwrap_or(Value::UNDEFINED)
         }
         11 => Value::from_object(PlainObj(c.str())),
+        14 => SHARED.with(|s| s.borrow().clone()).unwrap_or(Value::UNDEFINED),
         _ => Value::from(minijinja::Error::new(minijinja::ErrorKind::InvalidOperation, c.str())),
     }
 }
@@ -227,6 +235,9 @@ const CHAINS: &[&str] = &[
     "A < C < A", "A <= C <= A", "A == C == A", "A != C != A", "A < C != A", "A >= C > A",
 ];
 
+/// what mode 5 asks of the one result value r, in this order
+const OBSERVATIONS: &[&str] = &["r|list", "r|list", "r|length", "r|list", "r|reverse|list", "r|list"];
+
 fn main() {
     let env = Environment::new();
     serve(2, |c| {
@@ -247,6 +258,70 @@ fn main() {
             out.push(tmpl_bool(&env, "a == b", &a, &b));
             out.push(tmpl_bool(&env, "a in [b]", &a, &b));
             out.push(tmpl_bool(&env, "{b: 1}[a] is defined", &a, &b));
+        } else if mode == 4 {
+            // aliasing: 4 <x> <a> <b> -- like mode 0, but tag 14 inside a and b is a clone of the ONE value x (same object)
+            let x = value(&env, c);
+            SHARED.with(|s| *s.borrow_mut() = Some(x));
+            let a = value(&env, c);
+            let b = value(&env, c);
+            SHARED.with(|s| *s.borrow_mut() = None);
+            out.push(if a == b { "1" } else { "0" }.into());
+            out.push(match a.cmp(&b) {
+                std::cmp::Ordering::Less => "0",
+                std::cmp::Ordering::Equal => "1",
+                std::cmp::Ordering::Greater => "2",
+            }
+            .into());
+            out.push(if hash_of(&a) == hash_of(&b) { "1" } else { "0" }.into());
+            out.push(tmpl_bool(&env, "a < b", &a, &b));
+            out.push(tmpl_bool(&env, "a == b", &a, &b));
+            out.push(tmpl_bool(&env, "a in [b]", &a, &b));
+            out.push(tmpl_bool(&env, "{b: 1}[a] is defined", &a, &b));
+        } else if mode == 5 {
+            // repeatable enumeration: 5 opid <x> -- r = OP(x) is computed once, then observed several times
+            let opid = c.i64();
+            let x = value(&env, c);
+            let src = match opid {
+                0 => "x|reverse",
+                1 => "x|items",
+                2 => "x|dictsort",
+                3 => "x|slice(2)",
+                4 => "x|batch(2)",
+                5 => "x|map(attribute='a', default=none)",
+                6 => "x|select",
+                7 => "x|reject",
+                8 => "x|sort",
+                9 => "x|unique",
+                10 => "x|list",
+                11 => "x|reverse|reverse",
+                12 => "x",
+                100 => "x|chain(x)",
+                101 => "x|zip(x)",
+                _ => "range(3)",
+            };
+            let ctx: Value = [("x", x)].into_iter().collect::<std::collections::BTreeMap<&str, Value>>().into();
+            match env.compile_expression(src).and_then(|e| e.eval(ctx)) {
+                Err(e) => {
+                    out.push("1".into());
+                    out.push(err_code(e.kind()).to_string());
+                }
+                Ok(r) => {
+                    out.push("0".into());
+                    let rctx: Value = [("r", r)].into_iter().collect::<std::collections::BTreeMap<&str, Value>>().into();
+                    for obs in OBSERVATIONS {
+                        match env.compile_expression(obs).and_then(|e| e.eval(rctx.clone())) {
+                            Ok(v) => {
+                                out.push("0".into());
+                                enc(&v, &mut out);
+                            }
+                            Err(e) => {
+                                out.push("1".into());
+                                out.push(err_code(e.kind()).to_string());
+                            }
+                        }
+                    }
+                }
+            }
         } else if mode == 3 {
             // comparison / containment chains: 3 <a> <b> <c> haslit [str la] [str lb] [str lc]
             // -> the answers of CHAINS with the operands as context variables, then (haslit = 1) with the operands
